@@ -73,7 +73,10 @@ CHECKS["C02"] = {
               "(typed decoders and TCP transports) inputs whose text forms are new to the process, and frames sent by a raw WebSocket peer to a library WebSocket listener (whole-document scalars and null, the corpus, single-point mutations); "
               "oracle: no panic, and whatever is accepted re-encodes and re-decodes to an equal envelope of the same kind, on the typed "
               "decoders and on the real TCP receive path; a live Server must survive the inputs. "
-              "The text members are additionally swept deeper with the few characters each grammar branches on: media types ('a', '/', '+', ';', '=') to 6 pieces (thorough 8), nodes ('a', '@', '/', '.') to 7 (9), URIs to 5 (7)."),
+              "The text members are additionally swept deeper with the few characters each grammar branches on: media types ('a', '/', '+', ';', '=') to 6 pieces (thorough 8), nodes ('a', '@', '/', '.') to 7 (9), URIs to 5 (7). "
+              "Termination on traced connections: 1-3 TCP transports that share the library's stdout trace writer (as a listener's connections do) are handed sequences of up to 10 lines - envelopes, JSON values "
+              "that are no envelope (numbers, strings, arrays, null, wrong member types), texts that are no JSON - and every Receive must return, with an envelope or an error, also on the connections "
+              "that merely share the trace writer with the one that was handed such a text (real time: not returned 8 s after a context of 300 ms = does not terminate)."),
     "note": "Trusts encoding/json and the harness's canonical equality; inputs are sampled/enumerated, not all byte strings.",
     "technique": "systematic structural mutation sweep + property-based testing (rapid) + native go fuzzing, with a re-encode/re-decode stability oracle",
     "rule": ("inputs: corpus literals + hostile constants + generated envelopes; every single-point mutation (delete, 14 replacement values, wrap, "
@@ -82,7 +85,7 @@ CHECKS["C02"] = {
              "lexical / string / splice / merge mutations. Non-trivial: input accepted by at least one decoder or rejected inside document "
              "decoding (i.e. got past the JSON scanner and envelope discrimination). Distinct by SHA-1 of the input."),
     "assumptions": STD_ASSUMPTIONS,
-    "exhaustive_jobs": ["TestC02Sweep", "TestC02Lexical", "TestC02Text"],
+    "exhaustive_jobs": ["TestC02Sweep", "TestC02Lexical", "TestC02Text", "TestC02TracedEnum"],
     "jobs": [
         {"test": "TestC02Replay", "kind": "plain"},
         {"test": "TestC02Text", "kind": "plain", "shards": (4, 12), "timeout": (300, 3000)},
@@ -92,6 +95,8 @@ CHECKS["C02"] = {
         {"test": "TestC02Lexical", "kind": "plain", "shards": 8, "timeout": (300, 3000)},
         {"test": "TestC02Rapid", "kind": "rapid", "shards": 8, "checks": (4000, 150000)},
         {"test": "TestC02Live", "kind": "plain", "shards": (4, 8), "timeout": (300, 1500)},
+        {"test": "TestC02TracedEnum", "kind": "plain", "timeout": (300, 1500)},
+        {"test": "TestC02Traced", "kind": "rapid", "shards": 2, "checks": (60, 1500), "timeout": (300, 3000), "shrink": (30, 90)},
         {"test": "FuzzC02Decode", "kind": "fuzz", "fuzztime": (0, 240), "thorough_only": True},
     ],
 }
